@@ -158,7 +158,7 @@ func missing(all map[string]*types.Const, covered map[string]bool, except map[st
 func init() {
 	core.Register(&core.Rule{
 		Name: "R-EXHAUST",
-		Doc: "Switches over the repository's closed enumerations: (a) the NFA compiler's switch over regexp/syntax.Op covers every operator the parser can emit (all exported Op constants except OpNoMatch, which the parser removes from alternations and never returns at top level) and its default returns an error; (b) every dispatcher-shaped switch over meta.Strategy (every clause ends in return) either covers all strategies or has a default that calls the same universal helper as its UseNFA clause; (c) every switch whose tag is a nfa.Look parameter of a function that returns a value (an assertion evaluator or set operation) covers all look-around kinds or has a default; (d) every switch over nfa.StateKind covers all kinds or has a default. Necessary for C09 (Compile accepts stdlib's language), C01/C11 (every strategy is answered by every dispatcher) and C14 (no assertion kind is silently ignored).",
+		Doc: "Switches over the repository's closed enumerations: (a) the NFA compiler's switch over regexp/syntax.Op covers every operator the parser can emit (all exported Op constants except OpNoMatch, which the parser removes from alternations and never returns at top level) and its default returns an error; (b) every dispatcher-shaped switch over meta.Strategy (every clause ends in return) either covers all strategies or has a default that calls the same universal helper as its UseNFA clause; (c) every switch whose tag is a nfa.Look parameter of a function that returns a value and in which some clause returns (the switch decides the result: an assertion evaluator or set operation) covers all look-around kinds or has a default; (d) every switch over nfa.StateKind covers all kinds or has a default. Necessary for C09 (Compile accepts stdlib's language), C01/C11 (every strategy is answered by every dispatcher) and C14 (no assertion kind is silently ignored).",
 		Min: 40,
 		Run: func(p *core.Prog) *core.RuleResult {
 			res := &core.RuleResult{}
@@ -262,7 +262,7 @@ func init() {
 						// report which kinds are skipped
 						o.Status = core.Discharged
 						o.Detail = fmt.Sprintf("no default; %v are not selected by this switch (they take the code after it)", miss)
-						if tn == "nfa.Look" && si.fn.Type.Results != nil && len(si.fn.Type.Results.List) > 0 && tagIsParam(si) {
+						if tn == "nfa.Look" && si.fn.Type.Results != nil && len(si.fn.Type.Results.List) > 0 && tagIsParam(si) && anyClauseReturns(si) {
 							o.Status = core.Violated
 							o.Detail = fmt.Sprintf("switch over look-around kinds has no default and omits %v: those assertions would be treated as always false/true", miss)
 						}
@@ -303,4 +303,24 @@ func tagIsParam(si *switchInfo) bool {
 		return false
 	}
 	return check(si.fn.Type.Params) || check(si.fn.Recv)
+}
+
+
+// anyClauseReturns: some clause of the switch contains a return statement (the switch decides the function's result).
+func anyClauseReturns(si *switchInfo) bool {
+	found := false
+	for _, cl := range si.clauses {
+		for _, st := range cl.Body {
+			ast.Inspect(st, func(n ast.Node) bool {
+				if _, ok := n.(*ast.ReturnStmt); ok {
+					found = true
+				}
+				if _, ok := n.(*ast.FuncLit); ok {
+					return false
+				}
+				return true
+			})
+		}
+	}
+	return found
 }
